@@ -55,9 +55,11 @@ def build_include_case(rnd, tier, flags):
         ln = re.sub(r"^\s*[A-Za-z_]\w*\s*:(?!:)\s*", "", ln)     # construct name
         return lexer.strip_blanks(ln)
     texts = [body(ln) for ln in case13["full"].split("\n") if ln.strip()]
-    return {"include": {k: case13[k] for k in ("main", "files", "dir_order", "place", "decoys", "reader")},
+    return {"include": {k: case13[k] for k in ("main", "files", "dir_order", "place", "decoys", "reader", "relative_dirs")},
             "texts": texts, "walk": walk, "fixed": False, "keep_comments": False,
-            "meta": {"features": ["include"] + (["nested_include"] if case13["meta"].get("nested") else [])}}, excl
+            "meta": {"features": ["include"] + (["nested_include"] if case13["meta"].get("nested") else [])
+                     + (["same_file_twice"] if case13["meta"].get("same_file_twice") else [])
+                     + (["relative_include_dirs"] if case13.get("relative_dirs") else [])}}, excl
 
 
 def build(rnd, tier, flags):
@@ -122,6 +124,7 @@ def _evaluate_include(case):
     nontrivial = "nested_include" in feats or any(op == "put" and k >= 3 for op, k in walk)
     labels = ["f:" + f for f in feats] + ["walk"]
     wd = os.path.join(VERIF_DIR, ".work", "c12_%d" % os.getpid())
+    cwd0 = os.getcwd()
     shutil.rmtree(wd, ignore_errors=True)
     try:
         dirs = [os.path.join(wd, "d%d" % k) for k in range(3)]
@@ -139,6 +142,11 @@ def _evaluate_include(case):
         main_path = os.path.join(wd, "main.f90")
         with open(main_path, "w") as fh:
             fh.write(inc["main"])
+        if inc.get("relative_dirs"):
+            # everything named relative to the current directory for the rest of this case
+            os.chdir(wd)
+            search = [os.path.relpath(d, wd) for d in search]
+            main_path = "main.f90"
 
         def mk():
             if inc["reader"] == "file":
@@ -181,6 +189,7 @@ def _evaluate_include(case):
                           {"cursor": cursor, "expected": model[cursor:cursor + 4], "got": rest[:4]})
         return Result(True, None, nontrivial, labels)
     finally:
+        os.chdir(cwd0)
         shutil.rmtree(wd, ignore_errors=True)
 
 
